@@ -54,7 +54,7 @@ Copy(n, srcLen, dstRoom) == oob' = (oob \/ n > srcLen \/ n > dstRoom)
 Finish(how) == done' = how /\ pc' = "end"
 
 Params == [bmput |-> {0, 2}, vecput |-> {0, 2}, defput |-> {0, 1, 3}, trycopy |-> {1, 3}, getx |-> {2, 4}, ctb |-> {1, 3},
-           reader |-> {2}, iter |-> {0}, takevec |-> {0, 1, 3}, chainvec |-> {1, 3}]
+           reader |-> {1, 2}, iter |-> {0}, takevec |-> {0, 1, 3}, chainvec |-> {1, 3}]
 
 Init ==
   /\ consumer \in Consumers
@@ -116,9 +116,14 @@ FixedCopy ==
         /\ \E v \in RemDom : EnvRem(v) /\ Call("rem", v)
              /\ CASE consumer = "defput" -> (left' = left /\ (IF room < v THEN Finish("panic") ELSE (pc' = "loop" /\ done' = done)))
                   [] consumer = "trycopy" -> (left' = left /\ (IF v < left THEN Finish("err") ELSE (pc' = "copy" /\ done' = done)))
-                  [] consumer = "reader" -> (pc' = "copy" /\ done' = done /\ left' = Min2(v, param))
+                  \* Reader::read: len = min(remaining(), dst.len()); copy_to_slice(&mut dst[..len])
+                  [] consumer = "reader" -> (pc' = "recheck" /\ done' = done /\ left' = Min2(v, param))
                   [] consumer = "getx" -> (left' = left /\ (IF v < param THEN Finish("err") ELSE (pc' = "fast" /\ done' = done)))
         /\ Unch(<<consumer, reg, room, limit, oob, param>>)
+     \/ /\ pc = "recheck" /\ consumer = "reader"   \* copy_to_slice asks remaining() again: if remaining() < dst.len() { panic }
+        /\ \E v \in RemDom : EnvRem(v) /\ Call("rem", v)
+             /\ (IF v < left THEN Finish("panic") ELSE (pc' = "copy" /\ done' = done))
+        /\ Unch(<<consumer, reg, room, left, limit, oob, param>>)
      \/ /\ pc = "fast" /\ consumer = "getx"  \* chunk().get(..SIZE): checked against the slice actually returned
         /\ \E v \in ChunkDom : EnvChunk(v) /\ Call("chunk", v)
              /\ (IF v >= param
